@@ -41,7 +41,7 @@ XRoot == sc.roots[1]
 XSingle == Node(XRoot.n).k = "image"
 
 XInit == /\ sid \in Ids
-         /\ Len(AllTable[sid].roots) = 1 /\ AllTable[sid].kind = "oci" /\ AllTable[sid].lp = "none"
+         /\ Len(sc.roots) = 1 /\ sc.kind = "oci" /\ sc.lp = "none" /\ sc.sel.pre = "none"
          /\ arch = <<>> /\ rest = {}
          /\ pos = 1 /\ pass = 0 /\ phase = "export"
          /\ imp = ImpInit /\ tgt = TgtInit /\ err = ""
